@@ -571,7 +571,7 @@ Lemma tr_apply_shape_dtype t x y : tr_apply t x = Ok y ->
   nd_shape (a_nd y) = tr_new_shape t (nd_shape (a_nd x)) /\ a_dtype y = tr_dtype t (a_dtype x).
 Proof.
   destruct t as [a b dt| |]; cbn [tr_apply].
-  - intro H; injection H as <-. split; reflexivity.
+  - cbv zeta. destruct (LazyDType.is_bytes (a_dtype x)); [discriminate|]. intro H; injection H as <-. split; reflexivity.
   - destruct (rev (nd_shape (a_nd x))) as [|d r]; [discriminate|]. destruct (d <=? 0); [discriminate|].
     intro H; injection H as <-. split; reflexivity.
   - intro H; injection H as <-. split; reflexivity.
